@@ -42,6 +42,18 @@ def gen_set(r, nz, wide=0.0):
         S['norm'] = ['inf', float(r.choice([1.0, 2.0])), mid.tolist(), float(r.choice([2.0, 1.0]))]
     elif u < 0.7:
         S['quad'] = [mid.tolist(), float(r.choice([1.0, 4.0, 2.25]))]       # sumsqr(z - mid) <= rho
+    if (S['norm'] and S['norm'][0] == 2) or S['quad']:
+        # sets with a genuine cone constraint must be strictly feasible (the properties assume Slater's condition):
+        # no equality rows and no pinned components, so that `mid` is an interior point
+        S['eq'] = []
+        for j in range(nz):
+            if S['lo'][j] == S['hi'][j]:
+                S['lo'][j] -= 1.0; S['hi'][j] += 1.0
+        if S['norm']:
+            S['norm'][2] = ((np.array(S['lo']) + np.array(S['hi'])) / 2).tolist()
+        if S['quad']:
+            S['quad'][0] = ((np.array(S['lo']) + np.array(S['hi'])) / 2).tolist()
+        S['ineq'] = [[a, float(np.array(a) @ ((np.array(S['lo']) + np.array(S['hi'])) / 2) + 1)] for a, b in S['ineq']]
     return S
 
 
